@@ -135,6 +135,12 @@ def gen_dag_program(rnd):
         bad = rnd.choice([("bin", "%", pick(), apm.num(0)), ("bin", "/", pick(), apm.num(0)),
                           ("bin", "<<", apm.num(1), ("bin", "-", apm.num(0), ("sym", "dg0")))])
         defs.append(apm.assign("dgunused", rnd.choice([("bin", "+", u, ("grp", bad)), ("bin", "-", ("bin", "*", apm.num(2), u), ("grp", bad)), bad])))
+    if rnd.random() < 0.25:
+        # a count, a byte code or a skip target that comes out negative through a short chain of definitions: refused wherever they stand
+        k = rnd.randrange(2, 9)
+        defs += [apm.assign("ngn", apm.num(1)), apm.assign("ngm", ("bin", "+", ("sym", "ngn"), apm.num(1))), apm.assign("ngk", ("bin", "-", ("sym", "ngm"), apm.num(2 + k)))]
+        uses.append(rnd.choice([apm.blk(".blkb", ("sym", "ngk")), apm.blk(".blkw", ("sym", "ngk")), apm.string(".ascii", [("s", "a"), ("n", ("sym", "ngk"))]),
+                                apm.blk(".align", ("sym", "ngk")), apm.repeat(("sym", "ngk"), [apm.insn("nop")])]))
     return apm.Program([apm.SrcFile("f0.mac", uses + defs)])
 
 
